@@ -66,7 +66,15 @@ def components(src):
             raise Unsupported(f'{where(st, path)}: {st.name}: star/keyword-only parameters')
         params = [x.arg for x in a.args]
         defaults = [None] * (len(params) - len(a.defaults)) + list(a.defaults)
-        guards = [_guard(s, path, params) for s in st.body[:-1]]
+        guards, checks_wave = [], False
+        for s_ in st.body[:-1]:
+            # `periodic_function(wavetype)`: the waveform lookup (raises UnknownWavetype for unknown names)
+            if isinstance(s_, ast.Expr) and isinstance(s_.value, ast.Call) and isinstance(s_.value.func, ast.Name) and \
+                    s_.value.func.id == 'periodic_function' and len(s_.value.args) == 1 and not s_.value.keywords and \
+                    isinstance(s_.value.args[0], ast.Name) and s_.value.args[0].id == 'wavetype' and 'wavetype' in params:
+                checks_wave = True
+                continue
+            guards.append(_guard(s_, path, params))
         ret = st.body[-1]
         if not (isinstance(ret, ast.Return) and isinstance(ret.value, ast.Call) and isinstance(ret.value.func, ast.Name)
                 and ret.value.func.id == 'Component' and not ret.value.args):
@@ -90,7 +98,7 @@ def components(src):
                 vals.append((k.value, _vexpr(e, path, params)))
         out.append({'fun': st.name, 'type': kw['type'].value,
                     'params': [(p, _default(d, path)) for p, d in zip(params, defaults)],
-                    'guards': guards, 'values': vals})
+                    'guards': guards, 'values': vals, 'wave': checks_wave})
     return out
 
 
@@ -248,7 +256,7 @@ def generate(src):
     w('Inductive vexpr := VParam (p : str) | VReal (p : str) | VImag (p : str) | VConstZ (z : Z).')
     w('Inductive pdefault := NoDefault | DefZ (z : Z) | DefStr (s : str) | DefNodes (l : list str).')
     w('Record ctor := { c_fun : str; c_type : str; c_params : list (str * pdefault); c_guards : list str; '
-      'c_values : list (str * vexpr) }.')
+      'c_values : list (str * vexpr); c_checks_wavetype : bool }.')
     w('Definition component_ctors : list ctor := [')
     rows = []
     for c in comps:
@@ -256,7 +264,8 @@ def generate(src):
         gs = '; '.join(S(g) for g in c['guards'])
         vs = '; '.join(f'({S(k)}, {e})' for k, e in c['values'])
         rows.append(f'  (* {c["fun"]} -> {c["type"]} *)\n  {{| c_fun := {S(c["fun"])}; c_type := {S(c["type"])};\n'
-                    f'     c_params := [{ps}];\n     c_guards := [{gs}];\n     c_values := [{vs}] |}}')
+                    f'     c_params := [{ps}];\n     c_guards := [{gs}];\n     c_values := [{vs}];\n'
+                    f'     c_checks_wavetype := {str(c["wave"]).lower()} |}}')
     w(';\n'.join(rows))
     w('].')
     w('(* Circuit.transformers.transformers : component type -> translator function *)')
